@@ -419,6 +419,43 @@ def rule_c07(prog, rep):
                                       % (dd, ss, ' and without '.join(miss)))
 
 
+def rule_i7(prog, rep, rid='I7'):
+    """Payload/length pairing in the static hash table: a memcpy into a slot's value bytes is followed on
+    every path by `slot.datasize = <that length>`."""
+    rep.rule(rid, 'every copy into a slot\'s value bytes is followed on all paths by storing that length in the slot\'s datasize')
+    prog.unit(UNIT)
+    for f in sorted(prog.funcs_in(UNIT), key=lambda x: x.line or 0):
+        for n in f.cfg.nodes:
+            if n.id not in f.cfg.reachable or not isinstance(n.ast, dict) or n.kind == 'macro':
+                continue
+            for x in walk(n.ast):
+                if x.get('kind') == 'CallExpr' and prog.callee_name(x) in ('memcpy', 'memmove'):
+                    args = children(x)[1:]
+                    d = strip(args[0])
+                    if d.get('kind') == 'MemberExpr' and d.get('name') == 'data' and d.get('_field') and \
+                            d['_field'][0] != 'qhasharr_slot_s' and 'SLOT' in d['_field'][0].upper():
+                        # d = S.data.pair.data / S.data.ext.data ; the slot expression is three levels up
+                        slot = d
+                        for _ in range(3):
+                            slot = strip(children(slot)[0])
+                        sc = canon(slot)
+                        ln = canon(args[2])
+                        rep.instance(rid)
+
+                        def sets_len(m):
+                            if not isinstance(m.ast, dict) or m.kind == 'macro':
+                                return False
+                            return any(y.get('kind') == 'BinaryOperator' and y.get('opcode') == '=' and
+                                       canon(children(y)[0]) == sc + '.datasize' and canon(children(y)[1]) == ln
+                                       for y in walk(m.ast))
+                        ok = not _path_avoiding(f.cfg, n, sets_len)
+                        rep.oblige(rid, ok, {'function': f.name, 'copy': canon(x)[:70], 'requires': '%s.datasize = %s' % (sc, ln)})
+                        if not ok:
+                            rep.violation(rid, f, x.get('_line'), 'len:%s' % sc,
+                                          '%s bytes are copied into %s but some path returns without %s.datasize = %s: get() '
+                                          'reports a stale length' % (ln, canon(d), sc, ln))
+
+
 def _skip_link_edge(m, lab, dd):
     """The branch of `slots[dd].link != -1` on which the link is -1 needs no repair."""
     if m.kind != 'cond' or not isinstance(m.ast, dict) or lab not in ('T', 'F'):
